@@ -415,6 +415,75 @@ example : ∃ m s', recover (applyAll gen0 (((writeLog .head gen0 0 siblingReorg
   rw [hghost] at hm he
   exact ⟨m, s', hm, he, htd⟩
 
+/-! ## 6. The block cache on the error path -/
+
+/-- the writers and `recover` of this file read the STORE; the Go code reads through `bc.blockCache` (`GetBlock`).  Under
+    coherence the two are the same read: a cached block is returned exactly as the store would return it. -/
+theorem cache_reads_are_store_reads (c : BlockCache) (db : Db) (hc : Coherent c db) (h : Hash) (hd : Hdr)
+    (hg : cacheGet c h = some hd) : getBlockC c db h hd.num = getBlock db h hd.num := by
+  unfold getBlockC
+  rw [hg, hc h hd hg]
+
+/-- **`failed_write_leaves_no_cached_unwritten_block`.**  The code as written fills the block cache only from reads of the
+    store (`GetBlock` on a miss) — never with a block whose batch has not been flushed.  Then through ANY sequence of
+    reads, writes that went through (imports and Stop never remove a stored block) and writes that FAILED, the cache stays
+    coherent: no cached block is missing from the store, so no later `reorg`/`HasBlock`/known-block shortcut can act on a
+    block that never reached the disk.  (This is the error-path counterpart of C01's Layer-D coherence invariant; the
+    harness checks the consequence on the real code: after every survivable injected failure the history continues in the
+    same process and the reopened image is judged.) -/
+theorem failed_write_leaves_no_cached_unwritten_block : ∀ (steps : List CacheStep) (c : BlockCache) (db : Db),
+    Coherent c db →
+    (∀ (pre : List CacheStep) (st : CacheStep) (post : List CacheStep), steps = pre ++ st :: post →
+      CodeStep (pre.foldl cstep (c, db)).2 st) →
+    Coherent (steps.foldl cstep (c, db)).1 (steps.foldl cstep (c, db)).2 := by
+  intro steps
+  induction steps with
+  | nil => intro c db hc _; exact hc
+  | cons st rest ih =>
+    intro c db hc hall
+    have h1 := coherent_cstep hc st (hall [] st rest rfl)
+    simp only [List.foldl_cons]
+    have : cstep (c, db) st = ((cstep (c, db) st).1, (cstep (c, db) st).2) := rfl
+    rw [this]
+    apply ih _ _ h1
+    intro pre st' post he
+    have := hall (st :: pre) st' post (by simp [he])
+    simpa [List.foldl_cons] using this
+
+/-- the seeded shape (C04-6): `blockCache.Add(block)` right after the block was queued in its batch; the batch flush then
+    fails.  The cache now vouches for a block the store does not hold: coherence is gone, `GetBlock` through the cache and
+    `GetBlock` on the store disagree — which is how a retried segment skips the block as known, a later `reorg` makes it
+    canonical, and the reopened node finds a hole in the head's ancestry. -/
+theorem cache_add_before_flush_witness :
+    Coherent [] gen0 ∧
+    ¬ Coherent ([CacheStep.addUnflushed 2 ⟨0, 1, 102⟩, .failed (.batch (blockData ⟨2, 0, 1, 102, [2]⟩))].foldl cstep ([], gen0)).1
+        ([CacheStep.addUnflushed 2 ⟨0, 1, 102⟩, .failed (.batch (blockData ⟨2, 0, 1, 102, [2]⟩))].foldl cstep ([], gen0)).2 ∧
+    getBlockC [(2, ⟨0, 1, 102⟩)] gen0 2 1 = some ⟨0, 1, 102⟩ ∧ getBlock gen0 2 1 = none := by
+  refine ⟨fun h hd hg => by simp [cacheGet] at hg, ?_, by decide, by decide⟩
+  intro hc
+  have := hc 2 ⟨0, 1, 102⟩ (by decide)
+  revert this
+  decide
+
+example : CodeStep gen0 (.wrote (.batch (blockData ⟨2, 0, 1, 102, [2]⟩))) := by
+  intro h n hd hb
+  obtain ⟨hg, hn⟩ := getHeader_eq (getBlock_header hb)
+  by_cases e : h = 0
+  · subst e
+    have h0 : ChainDb.get gen0 (.header 0) = some (.hdr 999 0 100) := by decide
+    rw [h0] at hg
+    have : hd = ⟨999, 0, 100⟩ := by
+      cases hd
+      simp only [Option.some.injEq, Val.hdr.injEq] at hg
+      simp [hg.1, hg.2.1, hg.2.2]
+    subst this
+    have : n = 0 := hn.symm
+    subst this
+    decide
+  · exfalso
+    have e' : ¬ (0 = h) := fun x => e x.symm
+    simp [gen0, get_cons, e'] at hg
+
 /-! ### `SetHead` (outside the property's quantifier — recorded, not claimed) -/
 
 /-- `SetHead` deletes the head block's body, header and number while LastBlock still names it: a crash inside it leaves an
